@@ -555,6 +555,15 @@ pub fn structural(ctx: &Ctx, st: &mut Stats) {
             st.count("beyond_16bit_inputs", 1);
         }
     }
+    // one very long text section per text-scanning mode (C02, C04, C06, C09, C10)
+    if matches!(prop, "C02" | "C04" | "C06" | "C09" | "C10") {
+        for k in (ctx.shard..if ctx.tier == Tier::Quick { 27 } else { 108 }).step_by(ctx.nshards) {
+            let mut rr = Rng::derive(ctx.seed, k as u64, 3277, 1);
+            let s = tg::long_section_case(&mut rr, k);
+            structural_one(prop, st, &s, Src::Family);
+            st.count("long_section_inputs", 1);
+        }
+    }
     // very many diagnostics in one source (C09)
     if prop == "C09" {
         for k in (ctx.shard..if ctx.tier == Tier::Quick { 8 } else { 48 }).step_by(ctx.nshards) {
@@ -838,6 +847,36 @@ pub fn c12(ctx: &Ctx, st: &mut Stats) {
         st.count("deep_programs", 1);
         c12_one(st, &p);
     }
+    // deep, balanced call nests (several modes per level: hundreds of pending modes) around
+    // something that makes the lexer speculate and roll back at that depth
+    let n = ctx.draws(3_000, 60_000);
+    for _ in 0..n {
+        let k = r.pick(&[5usize, 10, 30, 52, 60, 64, 128, 140, 300]);
+        let (open, close) = r.pick(&[
+            ("%sysfunc(tranwrd(", ",a,b))"),
+            ("%eval(", ")"),
+            ("%m1(", ")"),
+            ("%m1(a=", ")"),
+            ("%upcase(", ")"),
+            ("%str(", ")"),
+            ("%qsysfunc(strip(", "))"),
+            ("%eval((", "))"),
+        ]);
+        let numeric = open.starts_with("%eval");
+        let inner = if numeric {
+            r.pick(&["1", "1 + 2", "&v", "%calc1 + 1", "%calc1(2) * 3", "1 %m_2"])
+        } else {
+            r.pick(&["x", "%u2x tail", "x y", "&v", "%calc1(1) z", "a %m_2 b", "%m_2"])
+        };
+        let head = r.pick(&["%let r = ", "%put ", "x = ", "%if 1 %then %put ", "title \""]);
+        let tail = if head.ends_with('"') { "\";" } else { ";" };
+        let prog = grammar::Prog { s: format!("{head}{}{inner}{}{tail}\n", open.repeat(k), close.repeat(k)), ..Default::default() };
+        st.count("deep_call_nests", 1);
+        c12_one(st, &prog);
+        if k >= 52 {
+            st.nontrivial(prog.s.as_bytes(), || sample(&prog.s, None, &format!("{k} nested {open}")));
+        }
+    }
 }
 
 pub fn c12_one(st: &mut Stats, p: &grammar::Prog) {
@@ -951,6 +990,32 @@ pub fn c14(ctx: &Ctx, st: &mut Stats) {
         // (b) the same nest cut at its deepest point
         let cut = format!("{}x y", opener.repeat(n));
         c14_eoi_case(st, &cut);
+    }
+    // more than 2^20 diagnostics before the omitted delimiter (optimized builds only)
+    if !run::DEBUG_BUILD && ctx.shard == 4 {
+        let head = "1e;".repeat((1 << 20) + 4096);
+        let src = format!("{head}%let a b;");
+        let at = head.len() + "%let a ".len();
+        st.cases += 1;
+        let ex = exec(&src);
+        st.observe_exec(&ex);
+        if let Some(res) = ex.result() {
+            let v = View::new(&src, res);
+            let d = grammar::Deletion {
+                pos: at,
+                prev_end: at,
+                error: sas_lexer::error::ErrorKind::MissingExpectedAssign,
+                token: TokenType::ASSIGN,
+                hidden: false,
+                construct: "%let-after-2^20-errors",
+                padded: false,
+                expect_at: Some(at),
+            };
+            let fs = wellformed::check_c14(&d, at, &v);
+            record(st, &fs, &[&src]);
+            st.count("omission_after_2pow20_errors_cases", 1);
+            st.count("errors_in_largest_error_list", res.errors.len() as i128);
+        }
     }
     // the end-of-input row holds for any source: whatever is still expected when the input ends
     // is discharged by its recovery token
